@@ -57,6 +57,7 @@ def search(ctx, deep):
     rng = ctx.rng('search')
     n_theta = 6 * (5 if deep else 1)
     checked = found = 0
+    shape_seen = set()
     for fam in B.FAMS:
         for th in B.theta_all(fam) + [B.theta_random(fam, rng) for _ in range(n_theta)]:
             c = B.make(fam, th)
@@ -67,14 +68,22 @@ def search(ctx, deep):
                 found += 1
                 ctx.fail_input(f'{fam}.{meth}', dict(inp, theta=th), obs, req, f'{fam}.{meth}:{kind}{tag}')
 
+            def call1(meth, u, v):
+                # a one-row batch is a batch: the answer has shape (1,), like every other batch size
+                out = np.asarray(getattr(c, meth)(np.array([[u, v]])))
+                if out.shape != (1,) and (fam, meth) not in shape_seen:
+                    shape_seen.add((fam, meth))
+                    bad(meth, 'one-row-batch-shape', {'rows': [[u, v]]}, {'shape': list(out.shape)}, 'a batch of n rows gives n values, also for n = 1')
+                return float(out.ravel()[0])
+
             def C(u, v):
-                return float(c.cumulative_distribution(np.array([[u, v]]))[0])
+                return call1('cumulative_distribution', u, v)
 
             def H(u, v):
-                return float(c.partial_derivative(np.array([[u, v]]))[0])
+                return call1('partial_derivative', u, v)
 
             def P(u, v):
-                return float(c.probability_density(np.array([[u, v]]))[0])
+                return call1('probability_density', u, v)
             with np.errstate(all='ignore'):
                 for _ in range(10):
                     u = rng.uniform(0.02, 0.98)
@@ -113,7 +122,7 @@ def search(ctx, deep):
                 X = np.array(rows, dtype=float)
                 lp = np.asarray(c.log_probability_density(X), dtype=float)
                 pd_ = np.asarray(c.probability_density(X), dtype=float)
-                solo = np.array([float(c.log_probability_density(X[i:i + 1])[0]) for i in range(len(rows))])
+                solo = np.array([float(np.asarray(c.log_probability_density(X[i:i + 1])).ravel()[0]) for i in range(len(rows))])
                 checked += 1
                 ok_log = all((a == b) or abs(a - b) <= 1e-9 * max(1.0, abs(a)) or (a != a and b != b)
                              for a, b in zip(lp, np.log(pd_)))
@@ -144,7 +153,7 @@ def search(ctx, deep):
                 X = np.array(rows, dtype=float)
                 for meth, name in (('probability_density', 'pdf'), ('partial_derivative', 'h')):
                     whole = np.asarray(getattr(c, meth)(X), dtype=float)
-                    solo = np.array([float(getattr(c, meth)(X[i:i + 1])[0]) for i in range(len(rows))])
+                    solo = np.array([float(np.asarray(getattr(c, meth)(X[i:i + 1])).ravel()[0]) for i in range(len(rows))])
                     checked += 1
                     if not np.array_equal(whole, solo, equal_nan=True):
                         bad(meth, 'row-independence', {'rows': rows}, {'batch': whole.tolist(), 'solo': solo.tolist()},
